@@ -73,9 +73,9 @@ def jobs(tier, seed):
     f3 = families3()
     for i, fam in enumerate(f3):
         if tier == 'quick':
-            cfgs = [(d, m, 'all', 10.0) for d in (0.2, 0.5, 0.8) for m in (True, False)] + [(0.5, i % 2 == 0, 'input', 1.0), (0.5, i % 2 == 1, 'x5', 10.0)]
+            cfgs = [(d, m, 'all', 10.0) for d in (0.2, 0.5, 0.8) for m in (True, False)] + [(0.5, i % 2 == 0, 'input', 1.0 if i % 4 < 2 else 0.25), (0.5, i % 2 == 1, 'x5', 10.0), (0.5, i % 2 == 0, 'comp', 10.0), (0.2, i % 2 == 1, 'comp', 0.25)]
         else:
-            cfgs = [(d, m, pc, T) for d in (0.2, 0.5, 0.8) for m in (True, False) for pc, T in (('all', 10.0), ('input', 1.0), ('x5', 10.0))]
+            cfgs = [(d, m, pc, T) for d in (0.2, 0.5, 0.8) for m in (True, False) for pc, T in (('all', 10.0), ('input', 1.0), ('x5', 10.0), ('input', 0.25), ('comp', 10.0))]
         out.append({'k': 3, 'fam': [list(c) for c in fam], 'present': 'sorted' if i % 2 == 0 else 'reversed', 'cfgs': cfgs, 'seed': seed})
         if len(fam) >= 2 and any(len(c) >= 2 for c in fam):
             out.append({'k': 3, 'fam': [list(c) for c in fam], 'present': 'alternating', 'cfgs': [(0.5, i % 2 == 0, 'all', 10.0)], 'seed': seed, 'late_total': i % 3 == 0})
@@ -137,6 +137,11 @@ def run_cfg(job, cfg):
     scale = 5.0 if pclass == 'x5' else 1.0
     pots = CliqueVector({r: Factor(dom.project(r), scale * rng.randn(*dom.project(r).shape) if (pclass != 'input' or r in fam) else np.zeros(dom.project(r).shape))
                          for r in regs})
+    if pclass == 'comp':
+        # +1500 g(a) on one region and -1500 g(a) on another region sharing attribute a: the objective is unchanged on the consistent set
+        # (so the optimum is the one of the plain potentials), but every message across that attribute has slices 1500 nats apart
+        lst = S.compensate(S.ATTRS[:k], SIZES[:k], [(r, np.asarray(pots[r].values, dtype=float)) for r in regs])
+        pots = CliqueVector({r: Factor(dom.project(r), a) for r, a in lst})
     mu = rg.belief_propagation(pots)
     fails = []
     for r in regs:
